@@ -42,11 +42,12 @@ CONSTANTS DirU,        \* universe of directives
           MaxDirs,     \* directives per filter
           SpanU,       \* universe of span metadata [lvl, tgt, name]
           Handles,     \* span handles of the script
+          KVals,       \* value tokens of field k
           SkipOffPush  \* negative control: the seeded design error "do not push OFF, always pop"
 
 VARIABLES kind,     \* "targets" | "env"
           dirs,     \* the filter
-          spans,    \* handle -> [st: "none"|"live"|"dead", m, k, lv]  (k: recorded value of field k, 0 = unset)
+          spans,    \* handle -> [st: "none"|"live"|"dead", m, k, lv]  (k: recorded value token of field k, "" = unset)
           entered,  \* A: sequence of handles entered on this thread, innermost last
           scope     \* M: the thread-local stack of levels
 dvars == <<kind, dirs, spans, entered, scope>>
@@ -56,7 +57,7 @@ SpanMeta(sm) == [lvl |-> sm.lvl, tgt |-> sm.tgt, kind |-> "span", name |-> sm.na
 EventMeta(lvl, tgt, k) == [lvl |-> lvl, tgt |-> tgt, kind |-> "event", name |-> "", flds |-> IF k THEN {"k"} ELSE {}]
 EventU == {EventMeta(lvl, tgt, k) : lvl \in 1..5, tgt \in {"a", "a::b", "ab", "b"}, k \in BOOLEAN}
 
-IsStatic(d)  == d.s = "" /\ d.v = 0
+IsStatic(d)  == d.s = "" /\ d.v = ""
 IsDynamic(d) == d.s # "" \/ d.f # ""
 \* index sets of the directives in force (a later equal key replaces an earlier one)
 SKey(d) == <<d.t, d.f>>
@@ -85,7 +86,8 @@ WouldEnable(D, tgt, lvl) == StaticAllows(D, EventMeta(lvl, tgt, FALSE), 1)
 DynCares(d, sm) == /\ IsPrefix(d.t, sm.tgt)
                    /\ (d.s = "" \/ d.s = sm.name)
                    /\ (d.f = "" \/ d.f \in Flds(sm.name))
-ValMatch(d, k) == d.v = 0 \/ d.v = k
+\* values are compared as canonical tokens ("1", "-3", "true", "1.5", "abc"); "" = no value / not recorded
+ValMatch(d, k) == d.v = "" \/ d.v = k
 \* the level a span raises while entered: every span-scoped directive matching it by target, name,
 \* field presence and recorded value contributes its level
 SpanLevel(D, sm, k) == MaxL({D[i].l : i \in {j \in EffDynamic(D) : DynCares(D[j], sm) /\ ValMatch(D[j], k)}})
@@ -108,7 +110,7 @@ SpanAllowed(sm, k) ==
 StatMax == MaxL({dirs[i].l : i \in {j \in DOMAIN dirs : IsStatic(dirs[j])}})
 DynMax  == MaxL({dirs[i].l : i \in {j \in DOMAIN dirs : IsDynamic(dirs[j])}})
 HasDyn  == \E i \in DOMAIN dirs : IsDynamic(dirs[i])
-HasValueFilters == \E i \in DOMAIN dirs : dirs[i].v # 0
+HasValueFilters == \E i \in DOMAIN dirs : dirs[i].v # ""
 MHint == IF kind = "targets" THEN StatMax
          ELSE IF HasValueFilters THEN 5 ELSE IF StatMax >= DynMax THEN StatMax ELSE DynMax
 MStatic(m) == StatMax >= m.lvl /\ StaticAllows(dirs, m, 1)
@@ -127,7 +129,7 @@ MSpan(sm) ==
 Tracked(h) == kind = "env" /\ spans[h].st = "live" /\ HasMatcher(dirs, spans[h].m)
 
 (* ----------------------------- actions --------------------------------- *)
-NoSpan == [st |-> "none", m |-> [lvl |-> 0, tgt |-> "", name |-> ""], k |-> 0, lv |-> 0]
+NoSpan == [st |-> "none", m |-> [lvl |-> 0, tgt |-> "", name |-> ""], k |-> "", lv |-> 0]
 DirSeqs == UNION {[1..n -> DirU] : n \in 0..MaxDirs}
 Init == /\ kind \in {"targets", "env"}
         /\ dirs \in {D \in DirSeqs : kind = "targets" => \A i \in DOMAIN D : IsStatic(D[i])}
@@ -145,7 +147,7 @@ NewSpanWith(h, sm, k, live) ==
 NewSpan(h, sm, k) == NewSpanWith(h, sm, k, MSpan(sm))
 Record(h, k) ==
   /\ spans[h].st # "none" /\ "k" \in Flds(spans[h].m.name)
-  /\ spans[h].k = 0                   \* a field is recorded once (the code's value matchers are sticky: matched once, matched for good)
+  /\ spans[h].k = ""                  \* a field is recorded once (the code's value matchers are sticky: matched once, matched for good)
   /\ \A i \in DOMAIN entered : entered[i] # h
   /\ spans' = [spans EXCEPT ![h].k = k, ![h].lv = IF kind = "env" THEN SpanLevel(dirs, spans[h].m, k) ELSE 0]
   /\ UNCHANGED <<kind, dirs, entered, scope>>
@@ -167,15 +169,15 @@ Close(h) ==
   /\ UNCHANGED <<kind, dirs, entered, scope>>
 
 Next == \E h \in Handles :
-          \/ \E sm \in SpanU, k \in 0..2 : (k = 0 \/ sm.name = "s1") /\ NewSpan(h, sm, k)
-          \/ \E k \in 1..2 : Record(h, k)
+          \/ \E sm \in SpanU, k \in KVals \cup {""} : (k = "" \/ sm.name = "s1") /\ NewSpan(h, sm, k)
+          \/ \E k \in KVals : Record(h, k)
           \/ Enter(h) \/ Exit(h) \/ Close(h)
 Spec == Init /\ [][Next]_dvars
 
 (* ----------------------------- properties ------------------------------ *)
 \* C11: the mechanism enables an event exactly when the property says so, in every reachable state
 EventsExact == \A m \in EventU : MEvent(m) = EventEnabled(m)
-SpansAllowed == \A sm \in SpanU, k \in 0..2 : (k = 0 \/ sm.name = "s1") => MSpan(sm) \in SpanAllowed(sm, k)
+SpansAllowed == \A sm \in SpanU, k \in KVals \cup {""} : (k = "" \/ sm.name = "s1") => MSpan(sm) \in SpanAllowed(sm, k)
 \* would_enable agrees with actual filtering (Targets)
 WouldAgrees == kind = "targets" =>
                  \A lvl \in 1..5, tgt \in {"a", "a::b", "ab", "b"} : WouldEnable(dirs, tgt, lvl) = MEvent(EventMeta(lvl, tgt, FALSE))
